@@ -131,6 +131,13 @@ def gen_hash(rng, tier, mult):
             c = r.choice([1, 1, 2, 2, 3, 4, 5, 7]) if r.chance(9, 10) else r.range(8, 20 if quick else 60)
             ops.append("pbkdf2 %s %s %d %d" % (hx(data(r, plen)), hx(data(r, slen)), c, dk))
         cases.append(ops)
+    # long outputs: the block index INT(i) must carry beyond one and two bytes (256 and 65536 blocks of 32 bytes)
+    rl = rng.fork("pbkdf2-long")
+    longs = [32 * 256 + rl.range(1, 40), 32 * 65536 + rl.range(1, 64)]
+    if not quick:
+        longs += [32 * 65535 + 1, 32 * 65536 * 2 + 5, 32 * 511 + 31]
+    for dk in longs:
+        cases.append(["pbkdf2sum %s %s 1 %d" % (hx(data(rl, rl.range(0, 70))), hx(data(rl, rl.range(0, 60))), dk)])
     return cases
 
 
